@@ -17,7 +17,7 @@ Entries ==
 Sers == UNION {[1..k -> Entries] : k \in 0..MaxLen}
 ASSUME \A m \in Sers : CanonIsSer(m) /\ CanonIdem(m)
 ASSUME \A m1 \in Sers : Valid(m1) => \A m2 \in Sers : CanonUnique(m1, m2)
-ASSUME \A m \in Sers : PrintT(<<"CASE", ToJson([ser |-> m, valid |-> Valid(m), canon |-> IF Valid(m) THEN Canonical(m) ELSE <<>>])>>)
+ASSUME \A m \in Sers : \A sp \in Spellings : (sp = "min" \/ m # <<>>) => PrintT(<<"CASE", ToJson([ser |-> m, spell |-> sp, valid |-> Valid(m), canon |-> IF Valid(m) THEN Canonical(m) ELSE <<>>])>>)
 VARIABLE x
 Init == x = 0
 Next == UNCHANGED x
